@@ -14,6 +14,9 @@ package main
 //	mans <json.path> <json-value> <json.path> <json-value> ...              consistent multi-field manifest edit
 //	arcmans <json.path> <json-value> ...                                    the same, packed by the REAL archive writer and loaded through ArchiveReader
 //	arc sub <off> <xor> | arc trunc <len> | arc append <n> | arc noop       encrypted archive bytes, Load with ArchiveReader
+//	arcins <boundary> <type> <len>   a frame nobody sealed (header + <len> zero bytes; len = max | over: the size limit, one above)
+//	                                 inserted at frame boundary <boundary> (0 = after the archive header, last = before the final frame), Load(ArchiveReader)
+//	uins <mode> <pre> <boundary> <type> <len>   the same archive through Unpack / the direct API
 //	arckey wrong | arckey malformed <variant>                               wrong / malformed key material
 //	tar <mode> <pre> <entry,entry,...>                                      see c20_tar.go
 //
@@ -25,6 +28,7 @@ import (
 	"bytes"
 	"context"
 	"crypto/hpke"
+	"encoding/binary"
 	"encoding/hex"
 	"encoding/json"
 	"fmt"
@@ -319,6 +323,45 @@ func (d *c20Dump) loadKeepClass(stats *Stats, archive []byte, identity hpke.Priv
 	return fmt.Sprintf("%s log=%d schema=%d equal=%s cls=%s", res, len(db.mutations), len(db.schemaLog), equal, cls)
 }
 
+const c20MaxFrame = 1024*1024 + 4096 // maxEncryptedArchiveFrameSize
+
+// insertFrame splices an unauthenticated frame into the pristine encrypted archive at a frame boundary.
+func (d *c20Dump) insertFrame(boundary, typ, length string) ([]byte, bool) {
+	prelude, frames, ok := c20Frames(d.archive)
+	if !ok {
+		return nil, false
+	}
+	k := len(frames) - 1
+	if boundary != "last" {
+		k = c20Atoi(boundary, -1)
+	}
+	ty := c20Atoi(typ, -1)
+	n := c20Atoi(length, -1)
+	switch length {
+	case "max":
+		n = c20MaxFrame
+	case "over":
+		n = c20MaxFrame + 1
+	}
+	if k < 0 || k > len(frames) || ty < 0 || ty > 255 || n < 0 {
+		return nil, false
+	}
+	out := append([]byte(nil), prelude...)
+	for i := 0; i <= len(frames); i++ {
+		if i == k {
+			var hdr [5]byte
+			hdr[0] = byte(ty)
+			binary.BigEndian.PutUint32(hdr[1:], uint32(n))
+			out = append(out, hdr[:]...)
+			out = append(out, make([]byte, n)...)
+		}
+		if i < len(frames) {
+			out = append(out, frames[i]...)
+		}
+	}
+	return out, true
+}
+
 func (d *c20Dump) clone() []c20File {
 	out := make([]c20File, len(d.files))
 	for i, f := range d.files {
@@ -528,6 +571,18 @@ func (r *c20Runner) Step(t []string, raw string) string {
 		}
 		r.stats.Inc("arcmans.built")
 		return d.loadKeepClass(r.stats, arc.Bytes(), d.priv)
+	case t[0] == "arcins" && len(t) == 4:
+		arc, ok := d.insertFrame(t[1], t[2], t[3])
+		if !ok {
+			return "bad-op"
+		}
+		return d.load(r.stats, nil, arc, d.priv)
+	case t[0] == "uins" && len(t) == 6:
+		arc, ok := d.insertFrame(t[3], t[4], t[5])
+		if !ok {
+			return "bad-op"
+		}
+		return r.unpackObserved(t[1], t[2], arc)
 	case (t[0] == "mtail" || t[0] == "mhead") && len(t) == 3:
 		extra, err := hex.DecodeString(t[2])
 		if err != nil || len(extra) == 0 {
@@ -1119,6 +1174,63 @@ func (c20Suite) Gen(rng *Rng, tier string, w *bufio.Writer, stats *Stats) {
 				header("manifest-tail-unpack "+codec, dumpLine)
 				fmt.Fprintf(w, "umtail %s %s %s\n", mode, pre, tail)
 				stats.Inc("gen.umtail")
+			}
+		}
+	}
+	// --- frame-level insertions into the real encrypted archive: a frame nobody sealed, every type, declared length
+	// 0, 1..15 (< AEAD tag), 16 (tag only), 17, the size limit and one above, at every frame boundary
+	for ci, codec := range codecs {
+		if !thorough && ci != int(fullCodec) {
+			continue
+		}
+		dumpLine := fmt.Sprintf("dump codec=%s graphs=1 nodes=2 edges=1 shard=2 batch=2 gseed=%d", codec, 700+ci)
+		d, err := c20BuildDump(c20KV(strings.Fields(dumpLine)[1:]))
+		if err != nil {
+			continue
+		}
+		_, frames, _ := c20Frames(d.archive)
+		var ops []string
+		for k := 0; k <= len(frames); k++ {
+			lens := []string{"0"}
+			if thorough || k == 0 || k == len(frames)-1 || k == len(frames) || k == len(frames)/2 {
+				lens = []string{"0", "1", "8", "15", "16", "17", "max", "over"}
+			}
+			for _, typ := range []string{"0", "1", "7"} {
+				for _, n := range lens {
+					if (n == "max" || n == "over") && typ != "0" {
+						continue
+					}
+					ops = append(ops, fmt.Sprintf("arcins %d %s %s", k, typ, n))
+					stats.Inc("gen.arcins")
+				}
+			}
+		}
+		for _, beh := range c20Behaviours[1:5] {
+			ops = append(ops, "with "+beh+" arcins 0 0 0", "with "+beh+" arcins last 0 0", fmt.Sprintf("with %s arcins %d 0 0", beh, len(frames)/2))
+		}
+		for len(ops) > 0 {
+			n := len(ops)
+			if n > 150 {
+				n = 150
+			}
+			header("frame-insert "+codec, dumpLine)
+			fmt.Fprintln(w, "arc noop")
+			for _, o := range ops[:n] {
+				fmt.Fprintln(w, o)
+			}
+			ops = ops[n:]
+		}
+		for _, mode := range []string{"staged", "stagedforce", "encdirect"} {
+			for _, k := range []string{"0", fmt.Sprint(len(frames) / 2), "last"} {
+				for _, n := range []string{"0", "15", "16"} {
+					pre := "absent"
+					if mode == "stagedforce" {
+						pre = "full"
+					}
+					header("frame-insert-unpack "+codec, dumpLine)
+					fmt.Fprintf(w, "uins %s %s %s 0 %s\n", mode, pre, k, n)
+					stats.Inc("gen.uins")
+				}
 			}
 		}
 	}
